@@ -114,6 +114,22 @@ SEEDS = {
  "C12f": ("C12", "blocked-receiver check looks the message string up in a map", "a blocked module account as receiver in upper-case spelling: every later release fails, the deposit is stranded"),
  "C13e": ("C13", "the unlock decorator returns without calling next after a successful unlock", "fee payer with locked eFUND: signature, sequence and fee deduction are skipped, any key can sign"),
  "C13f": ("C13", "enterprise params authority check moved from the message server into the ante handler", "MsgUpdateParams nested in an authz MsgExec whose grantee names itself as authority"),
+ "C02g": ("C02", "the eFUND unlock decorator returns success without calling next after a successful unlock (signature verification skipped)", "a WRKChain/BEACON message in the transaction and a fee payer with locked eFUND: forged decisions are recorded and the order is minted"),
+ "C02h": ("C02", "the already-decided scan compares addresses but breaks at the first decision of somebody else", "another signer decided first, then the same signer accepts twice"),
+ "C03g": ("C03", "enterprise begin blocker ordered in front of the upgrade module's", "the upgrade block of the in-place upgrade: orders are tallied against zero-value parameters"),
+ "C03h": ("C03", "MsgProcessUndPurchaseOrder.GetSignBytes omits the decision", "amino-JSON sign mode: a signed reject is delivered as an accept"),
+ "C06g": ("C06", "WRKChain and BEACON fee decorators dispatched either/or", "a transaction mixing both modules offering only the WRKChain sum"),
+ "C06h": ("C06", "fee decorators return to next before the exact-fee check when a fee granter is named", "a fee granter with an allowance and any amount offered"),
+ "C07g": ("C07", "BEACON ExportGenesis exports the last registered id as the starting id", "export / import with a BEACON registered, then a further registration overwrites it"),
+ "C07h": ("C07", "record guard 'is this height recorded' instead of 'is this height new'", "a height below the last one that has no record in state"),
+ "C09g": ("C09", "BEACON keeper constructed on the WRKChain store key", "both modules used on one chain"),
+ "C09h": ("C09", "WRKChain ExportGenesis carries the starting id only when nothing is registered", "export / import with a WRKChain registered, then a further registration"),
+ "C10g": ("C10", "stream escrow account taken off the bank block-list", "a bank send to the escrow / a stream whose receiver is the escrow"),
+ "C10h": ("C10", "stream ExportGenesis forgets the module params", "validator fee changed by governance, export / import, a release"),
+ "C13g": ("C13", "same idea as C02g (another author): unlock decorator ends the ante chain", "fee payer with locked eFUND, any WRKChain/BEACON message, wrong key"),
+ "C13h": ("C13", "WRKChain fee decorator returns success without next when a fee granter is named", "a forged WRKChain transaction naming any fee granter"),
+ "C14g": ("C14", "gov module account left on the bank block-list (delete by module name on a map keyed by address)", "an accepted purchase order of the gov account: BeginBlock panics"),
+ "C14h": ("C14", "telemetry gauge narrows the total locked eFUND to int64 in the begin blocker", "total locked above 2^63-1"),
  "C14e": ("C14", "accepted order of a de-whitelisted purchaser set to rejected but left in the accepted queue", "whitelist removal before minting: BeginBlock panics from the next block on"),
  "C14f": ("C14", "decisions admitted on accepted orders + decision handler re-queues the order as raised (two files)", "a second signer decides in the one block between acceptance and minting: BeginBlock panics"),
  "C15e": ("C15", "enterprise InitGenesis adds imported spent records onto existing ones (the module is initialised twice by the app)", "an account with spent eFUND, import through the real InitChain"),
